@@ -16,13 +16,19 @@ TREES = {
     "D1": {"a": "x", "s/é": "crlf"},
     "D2": {"a": "x", "b": "x", "e": "e"},
     "D3": {"sp ace": "lf", "s/t/a": "bin"},
+    "D4": {"L1": "big1", "L2": "big2", "a": "x", "m": "y"},   # two large files + small ones in one directory
 }
+CONTENTS = dict(CONTENTS, big1=b"1" * (2**20 + 1), big2=b"2" * (2**20 + 1))
 STORES = {"L": ("local", "md5"), "B": ("base", "md5"), "G": ("local", "md5-dos2unix")}
 
 
 def alphabet(tier):
     ops = []
     for t in TREES:
+        if t == "D4":
+            # the large-file tree only through the operations that hash / add its files
+            ops += [("st", t, "L"), ("st", t, "B"), ("stu", t, "L"), ("save", t, "L")]
+            continue
         for s in ("L", "B"):
             ops.append(("st", t, s))
             ops.append(("stu", t, s))
@@ -40,14 +46,17 @@ def alphabet(tier):
         ops.append(("gc", s, "D1"))
         ops.append(("gc", s, "D2"))
     ops.append(("unprot", "L"))
+    for t in ("D1", "D2"):
+        ops.append(("edit", t))            # the user rewrites the first file: later staging is partially warm
+        ops.append(("stur", t, "L"))       # upload staging while the source files are being appended to
     return ops
 
 
-def targets(op):
+def targets(op, cur):
     """(store, oids) the operation is asked to add."""
-    if op[0] in ("st", "stu", "save"):
+    if op[0] in ("st", "stu", "save", "stur"):
         hn = STORES[op[2]][1]
-        listing = {rel: ref.digest(hn, CONTENTS[c]) for rel, c in TREES[op[1]].items()}
+        listing = {rel: ref.digest(hn, b) for rel, b in cur[op[1]].items()}
         if op[0] == "save":
             # index save stores one directory object per sub-directory entry (no root entry)
             out = set(listing.values())
@@ -60,7 +69,7 @@ def targets(op):
     if op[0] == "addf":
         return op[2], {ref.digest(STORES[op[2]][1], CONTENTS[op[1]])}
     if op[0] == "xfer":
-        listing = {rel: ref.md5(CONTENTS[c]) for rel, c in TREES[op[3]].items()}
+        listing = {rel: ref.md5(b) for rel, b in cur[op[3]].items()}
         return op[2], set(listing.values()) | {ref.tree_oid(listing)}
     return None, set()
 
@@ -108,8 +117,19 @@ def run_history(hist, with_state):
     viol = []
     steps = 0
     with World() as w:
+        cur = {}
         for t, files in TREES.items():
-            write_tree(w.p("ws", t), {rel: CONTENTS[c] for rel, c in files.items()})
+            cur[t] = {rel: CONTENTS[c] for rel, c in files.items()}
+            write_tree(w.p("ws", t), cur[t])
+
+        class MutatingFS(type(LFS)):
+            """Every binary read-open of a workspace file first appends to it (a concurrent writer)."""
+
+            def open(self, path, mode="r", **kw):
+                if "b" in mode and "r" in mode and path.startswith(w.p("ws")):
+                    with open(path, "ab") as fh:
+                        fh.write(b"+")
+                return super().open(path, mode=mode, **kw)
         for c in ("crlf", "e"):
             write_tree(w.p("single"), {c: CONTENTS[c]})
         state = State(root_dir=w.root, tmp_dir=w.p("tmp")) if with_state else None
@@ -131,6 +151,20 @@ def run_history(hist, with_state):
                         staging, _m, obj = build(odb, w.p("ws", op[1]), LFS, hn, upload=op[0] == "stu")
                         stagings.add(staging.path)
                         transfer(staging, odb, {obj.hash_info}, shallow=False, hardlink=False)
+                    elif op[0] == "stur":
+                        odb = odbs[op[2]]
+                        mfs = MutatingFS()
+                        staging, _m, obj = build(odb, w.p("ws", op[1]), mfs, "md5", upload=True)
+                        stagings.add(staging.path)
+                        transfer(staging, odb, {obj.hash_info}, shallow=False, hardlink=False)
+                    elif op[0] == "edit":
+                        first = sorted(cur[op[1]])[0]
+                        pth = os.path.join(w.p("ws", op[1]), *first.split("/"))
+                        with open(pth, "wb") as fh:
+                            fh.write(b"edited-%d" % i)
+                        from ..world import stamp
+
+                        stamp(pth)
                     elif op[0] == "addf":
                         odb = odbs[op[2]]
                         hn = STORES[op[2]][1]
@@ -143,8 +177,7 @@ def run_history(hist, with_state):
                         isave(idx, odb=odbs[op[2]])
                     elif op[0] == "xfer":
                         src, dst = odbs[op[1]], odbs[op[2]]
-                        files = TREES[op[3]]
-                        listing = {rel: ref.md5(CONTENTS[c]) for rel, c in files.items()}
+                        listing = {rel: ref.md5(b) for rel, b in cur[op[3]].items()}
                         ids = {hi(ref.tree_oid(listing))} | {hi(h) for h in listing.values()}
                         transfer(src, dst, ids, hardlink=False)
                     elif op[0] == "mig":
@@ -160,8 +193,7 @@ def run_history(hist, with_state):
                                 if isinstance(key, str) and m2 != 0o444 and STORES[s2][0] == "local":
                                     unprot[s2].add(key)
                     elif op[0] == "gc":
-                        files = TREES[op[2]]
-                        listing = {rel: ref.md5(CONTENTS[c]) for rel, c in files.items()}
+                        listing = {rel: ref.md5(b) for rel, b in cur[op[2]].items()}
                         try:
                             gc(odbs[op[1]], {hi(ref.tree_oid(listing))}, shallow=False)
                         except FileNotFoundError:
@@ -169,7 +201,11 @@ def run_history(hist, with_state):
                 except Exception as e:  # noqa: BLE001
                     viol.append((f"operation-raises-{type(e).__name__}/{op[0]}", f"step {i} {op}: {e!r}"))
                 # audit every store after every step
-                ts, toids = targets(op)
+                if op[0] in ("edit", "stur"):
+                    from ..world import walk_files
+
+                    cur[op[1]] = {k: v for k, v in walk_files(w.p("ws", op[1])).items()}
+                ts, toids = targets(op, cur)
                 if ts is not None:
                     unprot[ts] -= toids
                 if op[0] == "mig":
